@@ -150,7 +150,7 @@ pub fn case(rng: &mut Rng) -> String {
         _ => {
             // from_slice + compose + remove_axes = restriction of a tree to an axis-aligned slice
             let n = 2 + rng.below(3);
-            let tp = TreeParams { in_dim: n, out_dim: 1 + rng.below(2), max_depth: 2, partial16: *rng.pick(&[0, 3]), holes: false };
+            let tp = TreeParams { in_dim: n, out_dim: 1 + rng.below(2), max_depth: 2, partial16: *rng.pick(&[0, 3]), holes: false, palette: 0 };
             let g: AffTree<2> = rand_tree(rng, &tp);
             let mut refp = rand_int_vec(rng, n);
             let mut mask = Vec::new();
